@@ -30,6 +30,20 @@ class Gen:
         self.any_dates = any_dates
         self.made = []          # class instances made so far (for sharing)
         self.made_str = []      # seasoned string-like objects (for sharing)
+        self.made_cont = {}     # type key -> lists / dicts made (for sharing)
+
+    def maybe_shared(self, key, cont):
+        """With sharing on, sometimes hand out a container object made
+        earlier for the same type instead of the new one (the same list or
+        dict object then sits at two places of the value)."""
+        if not self.share:
+            return cont
+        pool = self.made_cont.setdefault(key, [])
+        if pool and self.rng.random() < self.share * 0.6:
+            return self.rng.choice(pool)
+        if cont:
+            pool.append(cont)
+        return cont
 
     def string(self):
         return plain.rand_str(self.rng, self.str_classes)
@@ -73,7 +87,8 @@ class Gen:
         k = t[0]
         if k in ('list', 'seq', 'mseq'):
             n = 0 if depth <= 0 else rng.randint(0, 3)
-            return [self.value(t[1], depth - 1) for _ in range(n)]
+            return self.maybe_shared(
+                repr(t), [self.value(t[1], depth - 1) for _ in range(n)])
         if k in ('dict', 'map', 'mmap'):
             n = 0 if depth <= 0 else rng.randint(0, 3)
             d = {}
@@ -82,7 +97,7 @@ class Gen:
                 if key in d:
                     continue
                 d[key] = self.value(t[2], depth - 1)
-            return d
+            return self.maybe_shared(repr(t), d)
         if k == 'opt':
             # recursive hierarchies (a class holding Optional[ancestor]) must
             # bottom out: recognition in yatiml is exponential in the
@@ -161,7 +176,8 @@ class Gen:
                 if k not in seen:
                     seen.add(k)
                     uniq.append(it)
-            kwargs[attr] = uniq
+            kwargs[attr] = self.maybe_shared(repr(('roster', cname, attr)),
+                                             uniq)
         if c.get('index_attr'):
             attr, key_attr = c['index_attr']
             ktype = [p for p in c['params'] if p['name'] == attr][0]['type'][1]
@@ -170,7 +186,8 @@ class Gen:
                 ks = str(getattr(it, '_v_args', {}).get(key_attr))
                 key = ks if ktype == 'str' else m.classes[ktype[1]](ks)
                 new[key] = it
-            kwargs[attr] = new
+            kwargs[attr] = self.maybe_shared(repr(('roster', cname, attr)),
+                                             new)
         obj = m.classes[cname](**kwargs)
         self.made.append(obj)
         return obj
